@@ -15,6 +15,7 @@ import gc
 import hashlib
 import itertools
 import json
+import traceback
 import warnings
 
 import numpy as np
@@ -59,6 +60,7 @@ ASSUMPTIONS = [
 ]
 EPS_REL = 1e-3
 TIER = "quick"
+SHRINK_BUDGET, SHRINK_SECONDS = 120, 25
 
 
 def set_tier(tier):
@@ -74,7 +76,10 @@ def prepare():
     warnings.simplefilter("ignore")
     sc = scenic.scenarioFromString("workspace = Workspace(RectangularRegion((0, 0), 0, 8, 8))\n"
                                    "ego = new Object in workspace\na = new Object in workspace, with shape ConeShape()\n")
-    sc.generate(maxIterations=100)
+    try:  # warm-up only
+        sc.generate(maxIterations=100)
+    except Exception:  # noqa: BLE001
+        pass
     geogen.twobody()
     gc.collect()
     gc.freeze()
@@ -85,6 +90,7 @@ def classify(v):
 
 
 _REC = []
+HookError = type("HookError", (Exception,), {})
 
 
 def recorder_class():
@@ -111,10 +117,13 @@ def recorder_class():
             super().updateMetrics(req, new_metrics)
 
         def checkRequirements(self, sample):
-            self.cur = {"order": None, "evals": []}
+            self.cur = {"order": None, "evals": [], "sample": sample}
             res = super().checkRequirements(sample)
             if self.hook:
-                self.hook(sample, res)
+                try:
+                    self.hook(sample, res)
+                except Exception as e:  # a bug of this harness must not look like a crash of the sampler
+                    raise HookError(repr(e)) from e
             return res
 
     _REC.append(Recorder)
@@ -124,6 +133,8 @@ def recorder_class():
 def gen_script(t):
     base = [t.choice([1e-4, 1e-3, 1e-5, 1e-2, 0.0], f"clk.base{i}") for i in range(8)]
     stalled = t.chance(1, 8, "clk.stalled")
+    if t.chance(1, 4, "clk.blanket-dear"):  # the optional blanket check (requirement 0) is slow throughout: it tends to sort last
+        base[0] = 1.0
     events = []
     for k in range(t.weighted([2, 3, 3, 2], "clk.nev")):
         events.append({"kind": t.choice(["spike", "dearest", "cheapest", "tie"], f"clk.e{k}.kind"),
@@ -206,6 +217,8 @@ class History:
                 self.first_orders.append([f"{i}:{self.kinds[i][:5]}" for i in order])
         if self.kinds[0] == "BlanketCollisionRequirement":
             self.bump("blanket:" + ("dropped" if 0 not in order else "ran-first" if order[0] == 0 else "ran-later"))
+            if accepted and 0 not in order and self.kinds.count("IntersectionRequirement"):
+                self.bump("blanket:dropped-on-accepted-candidate-with-pairwise-checks")
         if not accepted:
             last = evals[-1][0] if evals and not evals[-1][1] else None
             self.bump("rejected-by:" + (self.kinds[last] if last is not None else "exception-in-check"))
@@ -263,6 +276,8 @@ class History:
             pairs = list(itertools.combinations(idx, 2)) if kind[0] == "B" or len(idx) == 2 else []
             if kind[0] == "I" and len(idx) < 2:
                 proof = "one object of the pair allows collisions"
+            elif kind[0] == "I" and idx[0] == idx[1]:
+                proof = "the requirement compares an object with itself"
             elif all(georef.sat_gap(B[a], B[b]) > EPS_REL * max(B[a].size, B[b].size) for a, b in pairs):
                 proof = f"oriented bounding boxes of all {len(pairs)} collidable pair(s) are separated by more than the margin"
         elif kind == "ContainmentRequirement":
@@ -402,6 +417,19 @@ def run(tape):
                 dig.update(b"X")
                 stats["generate-exhausted"] = stats.get("generate-exhausted", 0) + 1
                 continue
+            except HookError:
+                raise
+            except Exception as e:  # noqa: BLE001 -- the sampler crashed: no scene, so not judged, but if it had just
+                # rejected the candidate, that rejection is still held against the oracle; the history ends here
+                stats["generate-raised:" + type(e).__name__] = 1
+                sample["generate_raised"] = "".join(traceback.format_exception_only(e))[-300:]
+                dig.update(type(e).__name__.encode())
+                cur = rec.cur
+                if cur and cur["evals"] and not cur["evals"][-1][1]:
+                    H.ncand += 1
+                    H.contradict_rejection(cur["sample"], cur["evals"][-1][0], sample["generate_raised"],
+                                           dict(order=cur["order"], evaluated=cur["evals"], requirement_kinds=H.kinds))
+                break
             H.judge_scene(scene)
         stats["generate-calls"] = H.call + 1
         for i, r in enumerate(rec.requirements):  # read-only look at the real checker's statistics
@@ -418,6 +446,8 @@ def run(tape):
         if n >= b:
             stats[f"histories:distinct-orders>={b}"] = 1
     stats["candidates"], stats["candidates-rejected"] = H.ncand, H.nrej
+    if not stats.get("accepted-scenes"):
+        stats["histories:no-scene-accepted"] = 1
     sample.update(requirement_kinds=H.kinds, first_orders=H.first_orders, distinct_orders=n, candidates=H.ncand,
                   accepted_scenes=stats.get("accepted-scenes", 0))
     for v in H.violations:
